@@ -720,6 +720,25 @@ def run(tier):
               'no function of the tree core that renders expressions recurses over the nesting depth (directly, through helpers, generators, tuple comparison, deepcopy or the generic pickler)',
               [('nodeio', 'write_smtlib'), ('nodeio', 'write_smtlib_for_checking'), ('nodeio', 'write_smtlib_to_file'), ('nodeio', 'write_smtlib_to_str'), ('nodeio', '__write_smtlib'), ('nodeio', '__write_smtlib_pretty'), ('nodeio', '__write_smtlib_str')],
               'the renderers raise RecursionError on deeply nested expressions which the reader parses without difficulty: rendering and re-parsing is no longer the identity there')
+    # every leaf a mutator builds is one token: otherwise the rendering of
+    # the tree does not parse back to the tree
+    from . import c15 as _c15
+    from ..shape import Summaries as _Summ
+    sub15 = Check('C15', 'other', tier, [], [])
+    chk.guard(_c15.rule_r3, sub15, prog, _c15.Abs(prog, _Summ(prog)))
+    chk.adopt('C07.R12', 'every leaf placed into the tree is a single token '
+              '(quotes are dropped only from symbols that are simple as a '
+              'whole and non-empty): the rendering parses back to the same '
+              'structure (shared with C15.R3)', sub15)
+    # the file handed to the command is the rendering of THIS candidate
+    from . import c09 as _c09
+    sub09 = Check('C09', 'other', tier, [], [])
+    chk.guard(_c09.rule_r6, sub09, prog)
+    Check.restrict(sub09, lambda wh, what: 'tmpfiles' in str(wh))
+    chk.adopt('C07.R13', 'the compact rendering is written to a file name '
+              'that no other process or thread writes to (pid and thread id '
+              'evaluated per call), so the command reads the rendering of '
+              'the candidate being checked (shared with C09.R6)', sub09)
     extra = None
     if tier == 'thorough':
         from .. import selftest
